@@ -1,10 +1,12 @@
 """C21: the encoder's output depends only on the visible samples of each submitted picture (DESIGN.md 4/C21).
 
-Part A (encdrv sessions, ASan build): for every (size, bit depth, content, tool class) the session is repeated over the complete
-cross product  luma stride - width {0,1,2,16,64,...}  x  stride padding bytes {00, FF, per-frame varying}  x  lifetime of the
-caller's buffer {kept, overwritten with FF right after svt_av1_enc_send_picture returns, freed right after it returns};
-packets and reconstruction must be identical to the baseline (stride = width, padding 00, buffer kept) and ASan must stay silent
-(a read of a freed caller buffer is a heap-use-after-free).
+Part A (encdrv sessions): for every (size, bit depth, content, tool class) the session is repeated over the complete cross
+product  luma stride - width {0,1,2,16,64,...}  x  stride padding bytes {00, FF, per-frame varying}  x  lifetime of the caller's
+buffer {kept, overwritten with FF right after svt_av1_enc_send_picture returns, freed right after it returns}; packets and
+reconstruction must be identical to the baseline (stride = width, padding 00, buffer kept) and ASan must stay silent.
+The 'freed' third runs in the ASan build (a later read of the caller's buffer is a heap-use-after-free) and is compared with an
+ASan-build baseline; the 'kept' / 'overwritten' two thirds run in the release build (a later read yields FF bytes or the next
+picture, i.e. different output) and are compared with the release-build baseline.  An ASan session costs ~4x a release one.
 
 Part B (src/s2_c21tight.c, ASan build): the same picture content in planes allocated tightly - every plane is its own malloc
 block that ends with the last visible sample of the last row - so that any read beyond the visible samples of the last row is
@@ -65,16 +67,21 @@ def asan_site(stderr):
     return kind, fn, (acc.group(1).lower() if acc else "access")
 
 
-def run_session(a, pre=None, timeout=300):
-    exe = os.environ.get("C21_ENCDRV")
+def build_of(a):
+    return "asan" if a["lifetime"] == "free" else "rel"
+
+
+def run_session(a, build, timeout=300):
+    exe = os.environ.get("C21_ENCDRV_" + build.upper())
     if exe:
-        return s2_mut.run_exe(exe, a, out=pre, timeout=timeout, env=ENV)
-    return enc.session(a, "asan", out=pre, timeout=timeout, env=ENV)
+        return s2_mut.run_exe(exe, a, timeout=timeout, env=ENV)
+    return enc.session(a, build, timeout=timeout, env=ENV)
 
 
 def case(item):
-    label, a = item
-    r = run_session(a)
+    """item: (label, args) or (label, args, build)"""
+    label, a = item[0], item[1]
+    r = run_session(a, item[2] if len(item) > 2 else build_of(a))
     o = {"label": label, "status": "ok", "asan": None, "ub": 0}
     err = r.get("stderr") or ""
     site = asan_site(err)
@@ -156,41 +163,53 @@ def deviation_class(v):
     return ",".join(parts) or "trailing-bytes-only"
 
 
+def group_items(gl, base, vs):
+    """all sessions of one group: every variant in its build, plus the ASan-build baseline"""
+    items = []
+    for v in vs:
+        a = dict(base)
+        a.update(v)
+        items.append(("%s/stride_extra=%d,padbyte=%d,lifetime=%s" % (gl, v["stride_extra"], v["padbyte"], v["lifetime"]), a, build_of(a)))
+    a = dict(base)
+    a.update({"stride_extra": 0, "padbyte": 0, "lifetime": "keep"})
+    items.append(("%s/asan-baseline" % gl, a, "asan"))
+    return items
+
+
 def run(tier):
     ck = vlib.Check(PID, tier, "exploration")
     enc.tools("asan")
+    enc.tools("rel")
     tight_exe()
     items = []
     gs = groups(tier)
     vs = variants(tier)
     # group-major order: a deadline cuts whole groups, every finished group is compared completely
     for gl, base in gs:
-        for v in vs:
-            a = dict(base)
-            a.update(v)
-            items.append(("%s/stride_extra=%d,padbyte=%d,lifetime=%s" % (gl, v["stride_extra"], v["padbyte"], v["lifetime"]), a))
+        items += group_items(gl, base, vs)
     tcs = tight_cases(tier)
     tres, tcomplete = vlib.pmap_deadline(tight_case, tcs, ck.t0 + 0.15 * ck.budget)
     res, complete = vlib.pmap_deadline(case, items, ck.deadline - 45)
     stat, hashes, samples, notok = {}, set(), [], []
     byg = {}
     ub = 0
-    for (label, a), o in res:
+    for (label, a, build), o in res:
         stat[o["status"]] = stat.get(o["status"], 0) + 1
         ub += o.get("ub", 0)
-        byg.setdefault(label.rsplit("/", 1)[0], []).append((label, a, o))
+        byg.setdefault((label.rsplit("/", 1)[0], build), []).append((label, a, o))
     compared = groups_done = 0
-    for gl, lst in byg.items():
+    for (gl, build), lst in byg.items():
         a0 = lst[0][1]
         bits = a0["bits"]
         tools = "tf=%s,ov=%s" % (a0["tf_level"], a0["enable_overlays"])
         ref = [x for x in lst if (x[1]["stride_extra"], x[1]["padbyte"], x[1]["lifetime"]) == (0, 0, "keep")]
+        gl = "%s[%s build]" % (gl, build)
         for label, a, o in lst:
             if o["status"] == "asan":
                 kind, fn, acc = o["asan"]
                 ck.violation("C21:asan:%s@%s,%dbit,%s" % (kind, fn, bits, deviation_class(a)),
                              "AddressSanitizer %s (%s) in %s during/after svt_av1_enc_send_picture [%s]\n%s"
-                             % (kind, acc, fn, label, o.get("asan_text", "")[:900]), {"part": "A", "args": a, "label": label})
+                             % (kind, acc, fn, label, o.get("asan_text", "")[:900]), {"part": "A", "args": a, "label": label, "build": build})
         if not ref or ref[0][2]["status"] != "ok":
             if ref and len(notok) < 30:
                 notok.append("baseline %s: %s" % (ref[0][2]["status"], gl))
@@ -205,12 +224,12 @@ def run(tier):
                     what = "packets" if o["obs"][:2] != robs[:2] else "reconstruction only"
                     ck.violation("C21:output-differs@%dbit,%s,%s" % (bits, deviation_class(a), tools),
                                  "%s differ from the baseline (stride = width, padding 00, buffer kept): %s vs %s [%s]"
-                                 % (what, o["obs"], robs, label), {"part": "A", "args": a, "ref_args": ref[0][1], "label": label})
+                                 % (what, o["obs"], robs, label), {"part": "A", "args": a, "ref_args": ref[0][1], "label": label, "build": build})
             elif o["status"] != "asan":
                 # the baseline session completes, this one does not: the outcome depends on stride / padding / lifetime
                 ck.violation("C21:session-%s@%dbit,%s,%s" % (o["status"], bits, deviation_class(a), tools),
                              "session ends as '%s' while the baseline (stride = width, padding 00, buffer kept) completes [%s]"
-                             % (o["status"], label), {"part": "A", "args": a, "ref_args": ref[0][1], "label": label})
+                             % (o["status"], label), {"part": "A", "args": a, "ref_args": ref[0][1], "label": label, "build": build})
         if len(samples) < 3:
             samples.append({"group": gl, "baseline": enc.describe(ref[0][1]), "variants_compared": sum(1 for x in lst if x[2]["status"] == "ok"),
                             "pkt_hash": robs[1]})
@@ -233,13 +252,13 @@ def run(tier):
         samples.append({"tight": tres[0][0][0], "status": tres[0][1]["status"]})
     cov = {"evaluations": len(res) + len(tres), "distinct_nontrivial": len(hashes) + len(tight_hashes),
            "rule": "part A: for each of %d groups (sizes %s x bit depth {8,10} x contents x tf_level/enable_overlays classes, 6 pictures, "
-                   "hierarchical_levels 2, ASan build) the complete product stride_extra %s x padbyte %s x lifetime %s is run and compared with "
-                   "the group's baseline; part B: tightly allocated planes (one malloc block per plane ending at the last visible sample, "
+                   "hierarchical_levels 2) the complete product stride_extra %s x padbyte %s x lifetime %s is run (lifetime=free in the ASan "
+                   "build, the others in the release build) and compared with the group's baseline of the same build; part B (ASan build): tightly allocated planes (one malloc block per plane ending at the last visible sample, "
                    "freed after send) for every size x bit depth x stride_extra x {tools off, on}; non-trivial = group whose baseline completes; "
                    "distinct = distinct baseline streams"
                    % (len(gs), list(SIZES), list(STRIDES_Q if tier == "quick" else STRIDES_T), list(PADS), list(LIFETIMES)),
            "samples": samples, "exhaustive": bool(complete and tcomplete), "enumerated": len(items) + len(tcs), "status_counts": stat,
-           "tight_status_counts": tstat, "groups_compared": groups_done, "variant_sessions_compared": compared,
+           "tight_status_counts": tstat, "group_baselines_compared(group x build)": groups_done, "variant_sessions_compared": compared,
            "sessions_with_ubsan_reports_ignored": ub, "not_evaluable_examples": notok}
     return ck.finish(cov, ["UBSan reports of the same build are not C21's (C11 owns them); only AddressSanitizer reports count here",
                            "10-bit input is the unpacked 16-bit format (compressed_ten_bit_format=0); the compressed 2-bit-plane format is not driven",
@@ -253,12 +272,12 @@ def replay(path):
         o = tight_case((d["label"], d["args"]))
         print(json.dumps(o, indent=1))
         return 0 if o["status"] != "asan" else 1
-    a = case((d["label"], d["args"]))
+    a = case((d["label"], d["args"], d.get("build", "asan")))
     print(json.dumps(a, indent=1))
     if a["status"] == "asan":
         return 1
     if "ref_args" in d:
-        b = case(("ref", d["ref_args"]))
+        b = case(("ref", d["ref_args"], d.get("build", "asan")))
         print(a.get("obs"), b.get("obs"))
         return 0 if a.get("obs") == b.get("obs") and a["status"] == b["status"] else 1
     return 0
@@ -276,24 +295,24 @@ MUTANTS = {
 
 
 def demo(which="stale-cr-pointer", sizes=((66, 66),)):
-    """Detection demonstration on a mutant encoder (ASan build): returns the violation keys part A produces for one group."""
+    """Detection demonstration on a mutant encoder (both builds): returns the violation keys part A produces per group."""
     rel, find, repl = MUTANTS[which]
-    exe = s2_mut.build_mutant_encdrv("asan", "c21_" + which.replace("-", "_"), rel, find, repl)
-    os.environ["C21_ENCDRV"] = exe
+    os.environ["C21_ENCDRV_ASAN"] = s2_mut.build_mutant_encdrv("asan", "c21_" + which.replace("-", "_"), rel, find, repl)
+    os.environ["C21_ENCDRV_REL"] = s2_mut.build_mutant_encdrv("rel", "c21_" + which.replace("-", "_"), rel, find, repl)
     out = []
     try:
         for gl, base in groups("quick"):
-            if (base["w"], base["h"]) not in sizes or base["bits"] != 8 or base["tf_level"] != 0:
+            if (base["w"], base["h"]) not in sizes or base["tf_level"] != 0:
                 continue
-            items = []
-            for v in variants("quick"):
-                a = dict(base)
-                a.update(v)
-                items.append(("%s/stride_extra=%d,padbyte=%d,lifetime=%s" % (gl, v["stride_extra"], v["padbyte"], v["lifetime"]), a))
+            items = group_items(gl, base, variants("quick"))
             res = vlib.pmap(case, items)
-            ref = [o for (l, a), o in zip(items, res) if (a["stride_extra"], a["padbyte"], a["lifetime"]) == (0, 0, "keep")][0]
             keys = {}
-            for (l, a), o in zip(items, res):
+            refs = {}
+            for (l, a, b), o in zip(items, res):
+                if (a["stride_extra"], a["padbyte"], a["lifetime"]) == (0, 0, "keep"):
+                    refs[b] = o
+            for (l, a, b), o in zip(items, res):
+                ref = refs[b]
                 if o["status"] == "asan":
                     k = "C21:asan:%s@%s,%dbit,%s" % (o["asan"][0], o["asan"][1], a["bits"], deviation_class(a))
                 elif o["status"] == "ok" and ref["status"] == "ok" and o["obs"] != ref["obs"]:
@@ -303,7 +322,8 @@ def demo(which="stale-cr-pointer", sizes=((66, 66),)):
                 else:
                     continue
                 keys[k] = keys.get(k, 0) + 1
-            out.append((gl, ref["status"], keys))
+            out.append((gl, {b: r["status"] for b, r in refs.items()}, keys))
     finally:
-        del os.environ["C21_ENCDRV"]
+        del os.environ["C21_ENCDRV_ASAN"]
+        del os.environ["C21_ENCDRV_REL"]
     return out
